@@ -107,3 +107,22 @@ CHECKS['C03'] = dict(
          'each teardown leaf exactly once, after main, before following nodes and before plug tearDown; not entered => no main/teardown '
          'body; terminal teardown results propagate.  Abort timing is explored under the controlled scheduler.',
     note='Setup sequences are plain phases so that "entered" is decidable from records; groups inside teardown only outside subtests.')
+
+CHECKS['C08'] = dict(
+    engine='enum', level='fault_enumeration', design_ref='DESIGN.md#c08',
+    technique='exhaustive assignment x single-fault enumeration on the real executor with an instrumented event log',
+    text='Every assignment of 3 instrumented plug classes (7 request shapes incl. one class under two names and update_kwargs=False) '
+         'to 2 phases (3 in thorough) and 5 test_start forms, crossed with every fault of the menu: constructor of A/B/C raises, '
+         'tearDown raises or hangs past plug_teardown_timeout_s, test_start raises/STOPs/is aborted, phase j raises/STOPs/times out/is '
+         'aborted.  Oracle on the event log: <=1 construction per class, same instance under the requested names, exactly one tearDown '
+         'per constructed instance after the last phase/test diagnoser and before the callbacks, only test_start plugs alive during '
+         'test_start, constructor failure => ERROR and no later phase, expected outcome unchanged by tearDown faults.',
+    note='One fault per run; abort issued by a real helper thread from inside the body (all abort timings are C04).')
+CHECKS['C09'] = dict(
+    engine='enum', level='model_checking', design_ref='DESIGN.md#c09',
+    technique='bounded-exhaustive histories of execute() calls x raising-callback subsets with a structural record predicate',
+    text='Histories of 1-2 (3 in thorough) consecutive execute() calls on one Test over 4 test_start modes x 10 main-phase modes '
+         '(ok, fail, exception, timeout, skip, plug constructor failure, abort, re-entrant execute() from a phase and from an output '
+         'callback, dut set in phase) x subsets of 3 callbacks that raise: every callback gets the same complete final record exactly '
+         'once in order; return value <=> PASS; afterwards no executor, no TEST_INSTANCES entry, no leaked log handler; overlap refused.',
+    note='Concurrent execute() from two threads and the KeyboardInterrupt path are explored under the scheduler (C04/C09 schedules).')
